@@ -60,6 +60,8 @@ def main():
                 bad = [o for o in rec['obligations'] if o['status'] != 'ok']
                 if why is None and bad:
                     why = f"obligation {bad[0]['label']} fails concretely on a path where it was proved"
+                if why is not None and rec.get('notes'):
+                    why += f" notes={rec['notes'][:3]}"
                 out.append(dict(match=why is None, why=why))
             else:
                 modes = ['real', 'concrete'] if getattr(H, 'REAL_REPLAY', False) else ['concrete']
